@@ -2,7 +2,7 @@
    What is proved: the argument/return buffer holds exactly the bytes written, whatever the chunking and on either
    side of the 64-byte inline/spill switch; a value serialized at the effective version is read back unchanged
    (this is the codec round trip). What is validated, not proved: call trees, drops, panics (differential execution). *)
-From SF Require Import Bytes Schema Ty TyProofs Abi AbiProofs.
+From SF Require Import AbiAgree Bytes Schema Ty TyProofs Abi AbiProofs.
 
 Theorem C09_flex : forall chunks, flex_contents (fold_left flex_write chunks (FStack [])) = concat chunks.
 Proof. exact flex_contents_concat. Qed.
@@ -20,3 +20,9 @@ Proof. exact flex_stack_bound. Qed.
 Theorem C09_transmit : forall v t x b, has_ty t x = true -> writable v t x = true -> enc v t x = Ok b ->
   dec v t (b ++ []) = Ok (norm v t x, []).
 Proof. intros. apply dec_enc_roundtrip; assumption. Qed.
+
+(* any number of methods (fix F5): an interface of any size connects; the only size limit is 64 arguments per method *)
+Theorem C09_any_number_of_methods : forall ev ce cle cn cln,
+  (forall m, In m (td_methods cn) -> index_of_method (m_name m) (td_methods cln) = None) ->
+  analyze ev ce cle cn cln = AOk (map (fun m => CM (m_name m) None 0) (td_methods cn)).
+Proof. exact analyze_any_number_of_methods. Qed.
